@@ -411,7 +411,12 @@ func c19WordRun(c c19WordCase) Verdict {
 type c19MixCase struct {
 	Lines    []string `json:"lines"`
 	Pipeline bool     `json:"pipeline"`
+	// OpenTransfer: the lines come while a chunked transfer is open (EHLO,
+	// MAIL, RCPT and a non-LAST chunk went before): errors count as anywhere
+	OpenTransfer bool `json:"open_transfer,omitempty"`
 }
+
+const c19OpenTransfer = "EHLO a\r\nMAIL FROM:<a@b>\r\nRCPT TO:<c@d>\r\nBDAT 2\r\nhi"
 
 var (
 	c19Valid   = []string{"NOOP", "RSET", "VRFY x", "EHLO a", "noop", "HELP", "EXPN x"}
@@ -436,8 +441,18 @@ func c19MixRun(c c19MixCase) Verdict {
 	}
 	w.Recv()
 	var outs [][]byte
+	open := c.OpenTransfer && !upgrades
+	if open && !c.Pipeline {
+		if o, st := w.Exchange([]byte(c19OpenTransfer)); st != harness.QIdle {
+			w.Finish()
+			return Verdict{Inconclusive: fmt.Sprintf("opening the transfer: %s %s", st, q(o))}
+		}
+	}
 	if c.Pipeline {
 		var sb strings.Builder
+		if open {
+			sb.WriteString(c19OpenTransfer)
+		}
 		for _, l := range c.Lines {
 			sb.WriteString(l + "\r\n")
 		}
@@ -472,6 +487,9 @@ func c19MixRun(c c19MixCase) Verdict {
 	// model: errors accumulate, never reset; the 4th closes
 	nerr := 0
 	wantReplies := 0
+	if open {
+		wantReplies = 4
+	}
 	closedAt := -1
 	for i, l := range c.Lines {
 		wantReplies++
@@ -487,6 +505,9 @@ func c19MixRun(c c19MixCase) Verdict {
 	v := Verdict{NonTrivial: nerr >= 3, Classes: []string{fmt.Sprintf("errors_%d", min(nerr, 4))}}
 	if upgrades {
 		v.Classes = append(v.Classes, "errors_around_starttls")
+	}
+	if open {
+		v.Classes = append(v.Classes, "errors_during_open_chunked_transfer")
 	}
 	// count reply *lines* leniently (the EHLO reply is multi-line; control
 	// octets may be echoed): a reply ends at a line whose 4th octet is SP
@@ -520,10 +541,12 @@ type c19BlobCase struct {
 	Cuts []int  `json:"cuts,omitempty"`
 	LMTP bool   `json:"lmtp,omitempty"`
 	L    int    `json:"l"`
+	Auth bool   `json:"auth,omitempty"` // AUTH is available (auth-capable backend, insecure authentication allowed)
 }
 
 func c19BlobRun(c c19BlobCase) Verdict {
-	r := harness.NewRig(harness.Config{LMTP: c.LMTP, MaxLineLength: c.L, MaxMessageBytes: 200, MaxRecipients: 2}, harness.Script{LMTPSession: c.LMTP})
+	r := harness.NewRig(harness.Config{LMTP: c.LMTP, MaxLineLength: c.L, MaxMessageBytes: 200, MaxRecipients: 2, AllowInsecureAuth: c.Auth},
+		harness.Script{LMTPSession: c.LMTP, AuthSession: c.Auth, Mechs: []string{"PLAIN"}})
 	w, _ := r.Dial()
 	if st := w.WaitQuiet(); st != harness.QIdle {
 		w.Finish()
@@ -567,7 +590,7 @@ func c19GenBlob(t *rapid.T) c19BlobCase {
 			b = append(b, rapid.SampledFrom(c19Alpha).Draw(t, "a"))
 		}
 	}
-	return c19BlobCase{Blob: b, Cuts: genCuts(t, len(b), interestingPositions(b, "\r\n"), "cuts"), LMTP: rapid.Bool().Draw(t, "lmtp"), L: rapid.SampledFrom([]int{0, 32, 64}).Draw(t, "l")}
+	return c19BlobCase{Blob: b, Cuts: genCuts(t, len(b), interestingPositions(b, "\r\n"), "cuts"), LMTP: rapid.Bool().Draw(t, "lmtp"), L: rapid.SampledFrom([]int{0, 32, 64}).Draw(t, "l"), Auth: rapid.Bool().Draw(t, "auth")}
 }
 
 var (
@@ -590,7 +613,7 @@ func init() {
 
 func TestC19(t *testing.T) {
 	registerAll()
-	st.Rule = "cases = probe lines of total length L-3..L+4, 2L, 3L at five conversation positions, lock-step and pipelined, whole or in two segments; endless (1 MiB, no LF) lines with octets consumed measured on the in-memory network, with and without a Debug writer attached to the server; all strings up to the length bound over {NUL,CR,LF,SP,'A','a',':','<',0xFF,0xE9} and the next two lengths over {0xFF,SP,'A',LF} as raw input; mixes of valid, state-refused and malformed commands around the error threshold, optionally with a STARTTLS upgrade in between; random blobs of command fragments and raw octets; non-trivial = probe within 3 of L OR input with NUL/CR OR >= 3 errors OR endless line; distinct = hash of the whole case"
+	st.Rule = "cases = probe lines of total length L-3..L+4, 2L, 3L at five conversation positions, lock-step and pipelined, whole or in two segments; endless (1 MiB, no LF) lines with octets consumed measured on the in-memory network, with and without a Debug writer attached to the server; all strings up to the length bound over {NUL,CR,LF,SP,'A','a',':','<',0xFF,0xE9} and the next two lengths over {0xFF,SP,'A',LF} as raw input; mixes of valid, state-refused and malformed commands around the error threshold, optionally with a STARTTLS upgrade in between; every verb with an argument that is blank in one sense or another (Unicode, C and ASCII white space, NUL) in four conversation states; random blobs of command fragments and raw octets; non-trivial = probe within 3 of L OR input with NUL/CR OR >= 3 errors OR endless line; distinct = hash of the whole case"
 	if !regress(t, "C19") {
 		return
 	}
@@ -684,10 +707,29 @@ func TestC19(t *testing.T) {
 			at := rapid.IntRange(0, len(lines)).Draw(rt, "starttls_at")
 			lines = append(lines[:at], append([]string{"STARTTLS"}, lines[at:]...)...)
 		}
-		return c19MixCase{Lines: lines, Pipeline: rapid.Bool().Draw(rt, "pipeline")}
+		return c19MixCase{Lines: lines, Pipeline: rapid.Bool().Draw(rt, "pipeline"), OpenTransfer: rapid.IntRange(0, 2).Draw(rt, "open_transfer") == 0}
 	})
 	if t.Failed() {
 		return
+	}
+	// every verb with an argument that is blank in some sense: white space as
+	// Unicode, the C library or a field splitter sees it, in four conversation states
+	blanks := []string{"", " ", "\t", "\x0b", "\x0c", "\r", "\x1c", "\x1f", "\x85", "\xa0", "\xc2\x85", "\xc2\xa0", "\xe2\x80\x83", "\xe3\x80\x80", " \x0b ", "\x0b LAST", "1 \x0b", "\x00"}
+	verbs := []string{"BDAT", "AUTH", "MAIL", "RCPT", "MAIL FROM:", "RCPT TO:", "VRFY", "EHLO", "HELO", "LHLO", "DATA", "STARTTLS", "NOOP", "RSET", "QUIT", "HELP", "EXPN"}
+	preludes := []string{"", "EHLO a\r\n", "EHLO a\r\nMAIL FROM:<a@b>\r\nRCPT TO:<c@d>\r\n", "EHLO a\r\nMAIL FROM:<a@b>\r\nRCPT TO:<c@d>\r\nBDAT 2\r\nhi"}
+	for _, pre := range preludes {
+		for _, vb := range verbs {
+			for _, bl := range blanks {
+				idx++
+				if !mine(idx) {
+					continue
+				}
+				blob := pre + vb + " " + bl + "\r\nNOOP\r\nQUIT\r\n"
+				if !c19Blob.one(t, c19BlobCase{Blob: Octets(blob), L: 0, Auth: true}) {
+					return
+				}
+			}
+		}
 	}
 	c19Blob.rapidCheck(t, pickTier(3000, 30000), c19GenBlob)
 }
